@@ -454,6 +454,7 @@ def run(ctx: Ctx):
 from ..mutants import Mut  # noqa: E402
 
 MUTANTS = [
+    Mut("columns-hidden-test-counts-widths", "urwid/widget/columns.py", "Columns.render", "        if len(data) < len(self.contents):", "        if len(data) < len(widths):", "HIDDEN-DEP|widget.columns.Columns.render|hidden-child test does not count contents"),
     Mut("attrmap-stores-callers-dict", "urwid/widget/attr_map.py", "AttrMap.set_attr_map", "        self._attr_map = dict(attr_map)\n", "        self._attr_map = attr_map\n", "ALIAS|widget.attr_map.AttrMap.set_attr_map|self._attr_map stores a foreign object"),
     Mut("focusmap-stores-callers-dict", "urwid/widget/attr_map.py", "AttrMap.set_focus_map", "        self._focus_map = None if focus_map is None else dict(focus_map)\n", "        self._focus_map = focus_map\n", "ALIAS|widget.attr_map.AttrMap.set_focus_map|self._focus_map stores a foreign object"),
     Mut("attrmap-updated-in-place", "urwid/widget/attr_map.py", "AttrMap.set_attr_map", "        self._attr_map = dict(attr_map)\n", "        self._attr_map.clear()\n        self._attr_map.update(attr_map)\n", "ALIAS|widget.attr_map.AttrMap.set_attr_map|self._attr_map changed in place"),
